@@ -11,6 +11,8 @@ int pick(int a, int b, int c);
 int pick(int a, const std::string &s, int c);
 int pick(double x);
 int stride(int num, int offset = 0, int step = 1);
+int window(int lo, const std::string &tag, bool closed = true, int step = 2);
+double blend(double a, double b, double w = 0.5);
 class Counter {
 public:
     Counter();
